@@ -90,7 +90,7 @@ def scenarios(ctx, space):
                    policy=['onrelease'], sweep=True)
     # -- three threads: seeded schedules ---------------------------------------------------------------------------
     names = list(sh)
-    for i in range(6 if quick else 60):
+    for i in range(6 if quick else 40):
         trio = [names[rng.randrange(len(names))] for _ in range(3)]
         yield dict(name=' || '.join(trio), threads=[[sh[t]] for t in trio], fault=None, policy=['rand', ctx.seed * 1000 + i],
                    sweep=not quick or i < 2, rand_fault=True)
